@@ -71,6 +71,13 @@ def pieces_matching(nodes, x, value, only=None):
 _LONG_USED = {}
 
 
+def calc_for_model(m, dm):
+    shot = m.Shot(weapon=m.Weapon(), ammo=m.Ammo(dm, m.Unit.FPS(2500)))
+    calc = m.Calculator()
+    calc._calc._init_trajectory(shot)
+    return calc._calc
+
+
 def make_calc_for(m, points, bc, dims=False, edited=False):
     """the solver object initialised for a model with this table.  edited=True: the model was first built - and USED, on a
     calculator that stays in service for all such tables - with other drag values; the caller then wrote the final values
@@ -171,10 +178,24 @@ def real_traces(chk, rng, n_custom):
             xs[0] = 0.0
         tabs.append((f"custom{j}", [(x, round(rng.uniform(0.1, 0.9), 4)) for x in xs], False))
     const = 0.076474 * math.pi / (8 * 144)        # standard air density x pi / (8 x 144)
-    for ti, (name, pts, shipped) in enumerate(tabs):
-        bc = rng.choice([0.2, 0.5, 1.0, 0.365])
-        edited = (not shipped) and ti % 3 == 0
-        otc = impl.outcome(make_calc_for, m, pts, bc, dims=bool(ti % 2), edited=edited)      # every other model carries weight / diameter / length
+    # models built by DragModelMultiBC (their table already carries the BC law; their BC is the sectional density when weight and
+    # diameter are given, else 1): the solver must use THAT table and THAT BC
+    U = m.Unit
+    for j, (w_, d_) in enumerate(((U.Grain(168), U.Inch(0.308)), (0, 0))):
+        src = [(p["Mach"], p["CD"]) for p in m.TableG7][:: 3]
+        mdl = m.DragModelMultiBC([m.BCPoint(0.31, Mach=0.9), m.BCPoint(0.27, Mach=2.2), m.BCPoint(0.29, V=U.MPS(500))],
+                                 [{"Mach": a, "CD": b} for a, b in src], w_, d_, U.Inch(1.2) if j == 0 else 0)
+        tabs.append((f"multibc{j}", [(p_.Mach, p_.CD) for p_ in mdl.drag_table], False, mdl))
+    for ti, tab_ in enumerate(tabs):
+        name, pts, shipped = tab_[:3]
+        prebuilt = tab_[3] if len(tab_) > 3 else None
+        bc = rng.choice([0.2, 0.5, 1.0, 0.365]) if prebuilt is None else float(prebuilt.BC)
+        edited = (not shipped) and ti % 3 == 0 and len(tab_) == 3
+        if prebuilt is not None:
+            otc = impl.outcome(calc_for_model, m, prebuilt)
+            chk.stratum("real_multibc_model")
+        else:
+            otc = impl.outcome(make_calc_for, m, pts, bc, dims=bool(ti % 2), edited=edited)      # every other model carries weight / diameter / length
         if otc[0] != "ok":
             # a legal table (>= 3 strictly ascending Mach points, positive Cd) that the library cannot build a solver for
             chk.violation("C09.LegalTableUnusable", {"source": "real-table", "table": name if shipped else "custom"},
@@ -329,7 +350,7 @@ def run(chk: core.Check, replay=None) -> None:
     if bad:
         chk.violation("C09.ShippedTableChangedByLibraryCall", {"tables": bad}, {"tables": bad})
     chk.sample(next(iter(raw.values())))
-    chk.require_strata(["int_at_node", "int_beyond_table", "int_midpoint_or_half", "real_shipped", "real_custom", "real_at_node", "real_beyond", "solver_uses_lookup", "solver_lookup_wind_changes_in_flight", "real_table_edited_in_place_on_a_long_used_calculator"])
+    chk.require_strata(["int_at_node", "int_beyond_table", "int_midpoint_or_half", "real_shipped", "real_custom", "real_at_node", "real_beyond", "solver_uses_lookup", "solver_lookup_wind_changes_in_flight", "real_table_edited_in_place_on_a_long_used_calculator", "real_multibc_model"])
     chk.rule.append("every table shape (3..%d nodes, gaps 1..3) x every quarter-grid query (TLC Gen_DragLookup) through 2 entry "
                     "points; all 9 shipped tables and seeded custom tables queried at / +-1 ulp / +-1e-9 around every node and "
                     "midpoint and beyond the last entry; non-trivial = query within the table span" % (6 if thorough else 5))
